@@ -81,7 +81,7 @@ class ConnectNode(fm.TimeComponent):
                 if all(c.in_infos[d] is not None for d in i.get("after", [])):
                     ex[i["name"]] = fm.Info(time=self.time, grid=fm.NoGrid(), units=None)
         for o in self.spec["outs"]:
-            if o["info"] == "from_in" and not c.infos_pushed[o["name"]]:
+            if o["info"] == "from_in" and (not c.infos_pushed[o["name"]] or o.get("always_push_info")):
                 src = c.in_infos[o["src"]]
                 if src is not None:
                     pi[o["name"]] = src.copy_with(units="")
@@ -126,6 +126,8 @@ def gen_connect_spec(rnd):
             if ins and rnd.random() < 0.4:
                 o["info"] = rnd.choice(["from_in", "rule_from_in"])
                 o["src"] = rnd.choice(ins)["name"]
+                # some components pass their infos on every call (as the shipped readers do)
+                o["always_push_info"] = o["info"] == "from_in" and rnd.random() < 0.5
             pulls = [x["name"] for x in ins if x["pull"]]
             if pulls and rnd.random() < 0.5:
                 o["data_deps"] = rnd.sample(pulls, k=rnd.randint(1, len(pulls)))
